@@ -79,6 +79,19 @@ def run(ck: Checker):
     check_wrapping(ck, 'C04-2', smod.func('EnsembleServlet._enqueue'), out_q={'self._qout'})
     check_wrapping(ck, 'C04-2', smod.func('EnsembleServlet._dequeue'), out_q={'self._qout'})
     check_wrapping(ck, 'C04-2', smod.func('SwitchServlet._enqueue'), out_q={'self._qout'})
+    # ensemble: a member output that is an exception is wrapped before it is stored in the result slot
+    f = smod.func('EnsembleServlet._dequeue')
+    cfg, sc, g = guard_cfg(ck, f, calls=())
+    slots = [n for n in cfg.nodes if isinstance(n.ast, ast.Assign) and isinstance(n.ast.targets[0], ast.Subscript) and isinstance(n.ast.targets[0].value, ast.Subscript) and isinstance(n.ast.value, ast.Name)]
+    ck.need(slots, f'{f.key}: result slot store not found')
+    for sn in slots:
+        v = sn.ast.value.id
+        bad = None
+        for d in g.at(sn.id):
+            facts = [x for x in d if x[1] == v]
+            if not (any(x[0] == 'pos' and x[2] == 'RemoteException' for x in facts) or any(x[0] == 'neg' and cfg.lat.is_sub('Exception', x[2]) for x in facts)):
+                bad = sorted(facts)
+        ck.ob('C04-2', f, sn.ast, bad is None, f'a member result stored in the slot is a RemoteException or proven not an exception' if bad is None else f'a member\'s failure can be stored in the result slot as a bare exception (path knowing only {bad}): fail_fast does not trigger for it and it loses its traceback when the combined result crosses a process boundary')
     # short circuit sinks
     for f, kind in ((smod.func('EnsembleServlet._enqueue'), 'member'), (smod.func('SwitchServlet._enqueue'), 'member')):
         cfg, sc, g = guard_cfg(ck, f, calls=())
@@ -235,4 +248,5 @@ def check_wrapping(ck: Checker, rid: str, f: FuncInfo, out_q: set):
                 if not (is_re or not_exc or container):
                     bad.append(sorted(facts))
             ck.ob(rid, f, c, not bad, f'on every path `{v.id}` is a RemoteException, or proven not an Exception ({len(S)} path condition(s))' if not bad else f'`{v.id}` can reach the output queue as a bare exception object (path knowing only {bad[0]}): it loses its traceback at the next process hop and downstream stages do not short-circuit it')
-    ck.need(found >= 1, f'{f.key}: no output put found')
+    if found == 0:
+        ck.ob(rid, f, (f.node.lineno, 'output puts'), False, 'no reachable put of (id, value) on the output queue: an exception value arriving at this stage cannot be short-circuited to the output')
